@@ -216,6 +216,8 @@ let t_spec : (string, sexp) Stdlib.Hashtbl.t = Stdlib.Hashtbl.create 64
 let t_url : (string, sexp) Stdlib.Hashtbl.t = Stdlib.Hashtbl.create 64
 let t_env : (string, sexp) Stdlib.Hashtbl.t = Stdlib.Hashtbl.create 16
 let t_root : coq_N list ref = ref []
+let t_vshow : (string, sexp) Stdlib.Hashtbl.t = Stdlib.Hashtbl.create 64
+let t_keytext : (string, coq_N list) Stdlib.Hashtbl.t = Stdlib.Hashtbl.create 32
 let key_of_text (t : coq_N list) = Stdlib.String.concat "," (Stdlib.List.map string_of_n t)
 let tab (cmd : sexp list) : sexp =
   (match cmd with
@@ -233,6 +235,8 @@ let tab (cmd : sexp list) : sexp =
    | [A "url"; A k; t; r] -> Stdlib.Hashtbl.replace t_url (k ^ ":" ^ key_of_text (str t)) r
    | [A "env"; t; r] -> Stdlib.Hashtbl.replace t_env (key_of_text (str t)) r
    | [A "root"; t] -> t_root := str t
+   | [A "vshow"; L rel; t] -> Stdlib.Hashtbl.replace t_vshow (key_of_text (Stdlib.List.map num rel)) t
+   | [A "keytext"; A kind; k; t] -> Stdlib.Hashtbl.replace t_keytext (kind ^ ":" ^ string_of_n (num k)) (str t)
    | [A "resetenv"] -> Stdlib.Hashtbl.reset t_env; Stdlib.Hashtbl.reset t_url
    | [A "reset"] -> Stdlib.Hashtbl.reset t_vparse; Stdlib.Hashtbl.reset t_specpat; Stdlib.Hashtbl.reset t_specver;
                     Stdlib.Hashtbl.reset t_spec; Stdlib.Hashtbl.reset t_url
@@ -367,6 +371,14 @@ let run (cmd : sexp) : sexp =
   | L [A "splitextras"; t] -> (match ReqParse.split_extras (str t) with Some (a, b) -> L [A "ok"; sstr a; sstr b] | None -> A "none")
   | L [A "archive"; t] -> bool_ (ReqParse.looks_like_archive (str t))
   | L [A "striphost"; t] -> sstr (ReqParse.strip_host (str t))
+  | L [A "showmarker"; pv; a] ->
+      (try
+        let keytext kind k = match Stdlib.Hashtbl.find_opt t_keytext (kind ^ ":" ^ string_of_n k) with Some t -> t | None -> failwith "driver: key text table" in
+        let vshow rel = match Stdlib.Hashtbl.find_opt t_vshow (key_of_text rel) with
+          | Some t -> str t | None -> raise (Miss (L [A "vshow"; L (Stdlib.List.map an rel)])) in
+        (match MarkerDisplay.show_marker (keytext "ver") (keytext "str") vshow (fun _ -> failwith "driver: in-list member text") (num pv) (tree a) with
+         | Some t -> L [A "ok"; sstr t] | None -> A "none")
+      with Miss m -> L [A "oracle-miss"; m])
   | L [A "dnf"; a] -> L (Stdlib.List.map (fun cl -> L (Stdlib.List.map smexpr cl)) (DnfModel.to_dnf (tree a)))
   | L [A "runi"; pv; pfv; L steps] ->
       (* a whole program with the crate's own recursions on ids: per step the raw id, the arena length, the cache length *)
